@@ -12,6 +12,7 @@ macro_rules! rt_proof {
         #[kani::stub(crate::sys::unix::UnixVirtualMemory::decommit, crate::verif_common::vm_nop)]
         #[kani::stub(crate::sys::unix::UnixVirtualMemory::release, crate::verif_common::vm_nop)]
         #[kani::stub(crate::arena::pool::PoolSet::new, crate::arena::pool::PoolSet::verif_tiny)]
+        #[kani::stub(crate::arena::pool::PoolSet::contains, crate::arena::pool::PoolSet::verif_contains2)]
         #[kani::stub(core::fmt::write, crate::verif_common::fmt_write)]
         $(#[$m])*
         fn $name() $body
@@ -29,19 +30,29 @@ fn rt_reserve(size: usize) -> Result<std::ptr::NonNull<u8>, u32> {
 
 macro_rules! arenas {
     ($arena:ident, $frame:ident, $pool:ident) => {
+        arenas!($arena, $frame, $pool, slot_base_unused);
+    };
+    ($arena:ident, $frame:ident, $pool:ident, $slots:ident) => {
         let arena_store = Arena::new(100_000).unwrap();
         let $arena: &'static Arena = unsafe { &*(&arena_store as *const Arena) };
         let frame_store = Arena::new(1).unwrap();
         let $frame: &'static Arena = unsafe { &*(&frame_store as *const Arena) };
         // pools over small stack buffers (tracked field-sensitively: recycled slot addresses stay concrete)
-        let mut slots0 = [0u64; 2];
-        let mut slots1 = [0u64; 4];
+        // slot memory: byte arrays of more than 64 elements, so that CBMC does NOT split them into
+        // per-element objects (a memcpy from one element of a split array to another read a stale
+        // version of the source element: a tool artefact that showed up as a false "bytes lost")
+        let mut slots0 = SlotMem([0u8; 128]);
+        let mut slots1 = SlotMem([0u8; 128]);
         let mut idx0 = [0u32; 2];
         let mut idx1 = [0u32; 2];
-        let pool_store = PoolSet::verif_over($arena, slots0.as_mut_ptr().cast(), idx0.as_mut_ptr(), slots1.as_mut_ptr().cast(), idx1.as_mut_ptr());
+        let pool_store = PoolSet::verif_over($arena, slots0.0.as_mut_ptr(), idx0.as_mut_ptr(), slots1.0.as_mut_ptr(), idx1.as_mut_ptr());
         let $pool: &'static PoolSet<'static> = unsafe { &*(&pool_store as *const PoolSet<'static>) };
+        let $slots: *const u8 = slots0.0.as_ptr();
     };
 }
+
+#[repr(align(8))]
+struct SlotMem([u8; 128]);
 
 fn two_bytes() -> [u8; 2] {
     let s: [u8; 2] = [kani::any(), kani::any()];
@@ -51,6 +62,24 @@ fn two_bytes() -> [u8; 2] {
 fn as_text(b: &[u8; 2]) -> &'static str {
     unsafe { std::mem::transmute::<&str, &'static str>(std::str::from_utf8_unchecked(b)) }
 }
+/// Content check by *location*: the string must sit at one of the known concrete places and the two
+/// bytes there must be the expected ones.  (Reading the bytes through the result value itself — a
+/// pointer merged from several return paths — made every instance run out of memory; comparing the
+/// pointer against concrete candidates and reading through the candidate does not.)
+fn bytes_at(c: &ArenaCow<'_>, s: &[u8; 2], known: &[*const u8]) -> bool {
+    if c.len() != 2 {
+        return false;
+    }
+    let p = c.as_bytes().as_ptr();
+    let mut i = 0;
+    while i < known.len() {
+        if p == known[i] {
+            return unsafe { *known[i] == s[0] && *known[i].add(1) == s[1] };
+        }
+        i += 1;
+    }
+    false
+}
 fn same2(c: &ArenaCow<'_>, s: &[u8; 2]) -> bool {
     let b = c.as_bytes();
     b.len() == 2 && b[0] == s[0] && b[1] == s[1]
@@ -58,19 +87,33 @@ fn same2(c: &ArenaCow<'_>, s: &[u8; 2]) -> bool {
 
 // ---- 2.a ArenaCow::promote, one instance per provenance class -----------------------------------
 fn promote_class(class: u8) {
-    arenas!(arena, frame, pool);
+    arenas!(arena, frame, pool, slot0);
     let s = two_bytes();
     let text = as_text(&s);
-    // storage in every region
-    let on_frame = ArenaString::from_str(frame, text);
-    let on_persistent = ArenaString::from_str(arena, text);
-    let in_slot = pool.alloc_str(text);
+    // storage only in the region the class needs (every extra ArenaString::from_str drags in the Vec
+    // growth machinery once more)
     let alias = |x: &ArenaString<'static>| unsafe { std::mem::transmute::<&str, &'static str>(x.as_str()) };
+    let mut keep: Option<ArenaString<'static>> = None;
     let (input, in_ptr): (ArenaCow<'static>, *const u8) = match class {
         0 => (ArenaCow::Borrowed(text), text.as_ptr()),
-        1 => (ArenaCow::Borrowed(alias(&on_persistent)), on_persistent.as_ptr()),
-        2 => (ArenaCow::Borrowed(alias(&in_slot)), in_slot.as_ptr()),
-        3 => (ArenaCow::Borrowed(alias(&on_frame)), on_frame.as_ptr()),
+        1 => {
+            let st = ArenaString::from_str(arena, text);
+            let r = (ArenaCow::Borrowed(alias(&st)), st.as_ptr());
+            keep = Some(st);
+            r
+        }
+        2 => {
+            let st = pool.alloc_str(text);
+            let r = (ArenaCow::Borrowed(alias(&st)), st.as_ptr());
+            keep = Some(st);
+            r
+        }
+        3 => {
+            let st = ArenaString::from_str(frame, text);
+            let r = (ArenaCow::Borrowed(alias(&st)), st.as_ptr());
+            keep = Some(st);
+            r
+        }
         4 => (ArenaCow::Owned(ArenaString::from_str(frame, text)), std::ptr::null()),
         5 => {
             let own = pool.alloc_str(text);
@@ -83,9 +126,11 @@ fn promote_class(class: u8) {
             (ArenaCow::Owned(own), p)
         }
     };
+    // where a result can legitimately live: the input's own storage, or the next slot of class 0
+    let known = [in_ptr, slot0, unsafe { slot0.add(8) }, text.as_ptr()];
     let out = input.promote(pool, frame);
     let op = out.as_bytes().as_ptr();
-    assert!(same2(&out, &s), "bytes-preserved: promote keeps the string's bytes");
+    assert!(bytes_at(&out, &s, &known), "bytes-preserved: promote keeps the string's bytes (at one of the places a result may live)");
     assert!(!frame.contains_ptr(op), "no-frame-alias: a promoted string never lives in the frame arena");
     match class {
         0 | 1 => assert!(out.is_borrowed() && op == in_ptr, "pass-through: source text and persistent-arena aliases are returned unchanged"),
@@ -98,19 +143,17 @@ fn promote_class(class: u8) {
     }
     kani::cover!(true, "promote reached");
     std::mem::forget(out);
-    std::mem::forget(on_frame);
-    std::mem::forget(on_persistent);
-    std::mem::forget(in_slot);
+    std::mem::forget(keep);
 }
 macro_rules! promote_class {
     ($name:ident, $class:literal) => {
-        rt_proof! { #[kani::unwind(22)] fn $name() { promote_class($class) } }
+        rt_proof! { #[kani::unwind(7)] fn $name() { promote_class($class) } }
     };
 }
 
 // ---- 2.c overwrite_slot with a value that may alias the slot's own storage --------------------------
 fn overwrite_class(class: u8) {
-    arenas!(arena, frame, pool);
+    arenas!(arena, frame, pool, slot0);
     let s = two_bytes();
     let t = two_bytes();
     let mut slot = Value::Str(ArenaCow::Owned(pool.alloc_str(as_text(&s))));
@@ -126,7 +169,8 @@ fn overwrite_class(class: u8) {
     Runtime::overwrite_slot(&mut slot, val, true, pool, frame);
     match &slot {
         Value::Str(c) => {
-            assert!(same2(c, &want), "bytes-preserved: the slot holds the assigned value's bytes");
+            let known = [slot0, unsafe { slot0.add(8) }, as_text(&t).as_ptr()];
+            assert!(bytes_at(c, &want, &known), "bytes-preserved: the slot holds the assigned value's bytes");
             assert!(!frame.contains_ptr(c.as_bytes().as_ptr()), "no-frame-alias: a stored value never lives in the frame arena");
         }
         _ => assert!(false, "kind: the slot holds a string"),
@@ -136,6 +180,212 @@ fn overwrite_class(class: u8) {
 }
 macro_rules! overwrite_class {
     ($name:ident, $class:literal) => {
-        rt_proof! { #[kani::unwind(22)] fn $name() { overwrite_class($class) } }
+        rt_proof! { #[kani::unwind(4)] fn $name() { overwrite_class($class) } }
+    };
+}
+
+// ---- 2.b relocate_return_value: the value a call returns survives the callee's frame reset -----------
+/// Runtime harnesses: the pools live in static buffers, so the persistent arena only holds the
+/// staging copy; both arenas get 128-byte models (small, but above CBMC's 64-element threshold for
+/// splitting arrays into per-element objects, see SlotMem).
+fn rt_reserve_small(_size: usize) -> Result<std::ptr::NonNull<u8>, u32> {
+    let layout = std::alloc::Layout::from_size_align(128, 4096).unwrap();
+    let p = unsafe { std::alloc::alloc(layout) };
+    std::ptr::NonNull::new(p).ok_or(12)
+}
+
+macro_rules! rt_proof_runtime {
+    ($(#[$m:meta])* fn $name:ident() $body:block) => {
+        #[kani::proof]
+        #[kani::stub(crate::sys::unix::UnixVirtualMemory::reserve, rt_reserve_small)]
+        #[kani::stub(crate::sys::unix::UnixVirtualMemory::commit, crate::verif_common::commit_ok)]
+        #[kani::stub(crate::sys::unix::UnixVirtualMemory::decommit, crate::verif_common::vm_nop)]
+        #[kani::stub(crate::sys::unix::UnixVirtualMemory::release, crate::verif_common::vm_nop)]
+        #[kani::stub(crate::arena::pool::PoolSet::new, crate::arena::pool::PoolSet::verif_static)]
+        #[kani::stub(crate::arena::pool::PoolSet::contains, crate::arena::pool::PoolSet::verif_contains2)]
+        #[kani::stub(core::fmt::write, crate::verif_common::fmt_write)]
+        $(#[$m])*
+        fn $name() $body
+    };
+}
+
+fn frame_base(frame: &Arena) -> *const u8 {
+    use std::alloc::{Allocator, Layout};
+    let off = frame.offset();
+    let p = frame.allocate(Layout::from_size_align(0, 1).unwrap()).unwrap();
+    unsafe { p.cast::<u8>().as_ptr().sub(off) }
+}
+
+/// class: 0 owned frame string above the mark; 1 borrowed source text; 2 owned pool slot;
+/// 3 borrowed alias into the frame above the mark (a parameter bound to a temporary, `return p`);
+/// 4 borrowed alias of a pool slot already released by the scope pop (`return s`, s a local).
+/// Classes 3 and 4 are what callers handed in before the repair of the return statement (they
+/// are kept as instances: a regression that stops detaching returned views shows up in 2.b', and
+/// these two document what relocate_return_value alone cannot save).
+fn relocate_class(class: u8) {
+    let arena_store = Arena::new(100_000).unwrap();
+    let arena: &'static Arena = unsafe { &*(&arena_store as *const Arena) };
+    let frame_store = Arena::new(1).unwrap();
+    let frame: &'static Arena = unsafe { &*(&frame_store as *const Arena) };
+    let rt = Runtime::new(arena, Some(frame));
+    let s = two_bytes();
+    let u = two_bytes();
+    let text = as_text(&s);
+    let fbase = frame_base(frame);
+    let mark = frame.offset();
+    let slot0 = PoolSet::verif_slot0_base();
+    let alias = |x: &ArenaString<'static>| unsafe { std::mem::transmute::<&str, &'static str>(x.as_str()) };
+    let mut keep: Option<ArenaString<'static>> = None;
+    let val: Value<'static> = match class {
+        0 => Value::Str(ArenaCow::Owned(ArenaString::from_str(frame, text))),
+        1 => Value::Str(ArenaCow::Borrowed(text)),
+        2 => Value::Str(ArenaCow::Owned(rt.pool.alloc_str(text))),
+        3 => {
+            let st = ArenaString::from_str(frame, text);
+            let v = Value::Str(ArenaCow::Borrowed(alias(&st)));
+            keep = Some(st);
+            v
+        }
+        _ => {
+            let st = rt.pool.alloc_str(text);
+            let v = Value::Str(ArenaCow::Borrowed(alias(&st)));
+            // the scope that owned the local was popped before the call returns
+            unsafe { rt.pool.dealloc(std::ptr::NonNull::new_unchecked(st.as_ptr() as *mut u8), 2) };
+            keep = Some(st);
+            v
+        }
+    };
+    let out = rt.relocate_return_value(val, mark);
+    // the caller carries on: new temporaries on the frame and a new pooled string, other bytes
+    let junk_f = ArenaString::from_str(frame, as_text(&u));
+    let junk_p = rt.pool.alloc_str(as_text(&u));
+    let known = [unsafe { fbase.add(mark) }, text.as_ptr(), slot0, unsafe { slot0.add(8) }];
+    match &out {
+        Value::Str(c) => assert!(bytes_at(c, &s, &known), "bytes-preserved: the returned string still reads as it did inside the callee"),
+        _ => assert!(false, "kind: a returned string stays a string"),
+    }
+    assert!(frame.offset() >= mark, "frame: reset to the caller's mark before the caller's next temporaries");
+    kani::cover!(u[0] != s[0], "reclaimed storage re-used with different bytes");
+    std::mem::forget(out);
+    std::mem::forget(junk_f);
+    std::mem::forget(junk_p);
+    std::mem::forget(keep);
+    std::mem::forget(rt);
+}
+/// A host value (here a process result) created inside the callee lives on the callee's frame.
+fn relocate_host() {
+    use crate::process::{HostHandle, HostValue, ProcessResult};
+    let arena_store = Arena::new(100_000).unwrap();
+    let arena: &'static Arena = unsafe { &*(&arena_store as *const Arena) };
+    let frame_store = Arena::new(1).unwrap();
+    let frame: &'static Arena = unsafe { &*(&frame_store as *const Arena) };
+    let rt = Runtime::new(arena, Some(frame));
+    let mark = frame.offset();
+    let ok: bool = kani::any();
+    let code: i32 = kani::any();
+    let val = Value::Host(HostHandle::new_in(frame, HostValue::ProcessResult(ProcessResult {
+        success: ok, exit_code: Some(code), stdout: None, stderr: None })));
+    let out = rt.relocate_return_value(val, mark);
+    // the caller's next temporary re-uses the reclaimed frame bytes
+    let u = two_bytes();
+    let junk = ArenaString::from_str(frame, as_text(&u));
+    match &out {
+        Value::Host(h) => {
+            let p = h.get() as *const HostValue<'static> as *const u8;
+            assert!(!frame.contains_ptr(p), "no-frame-alias: a returned host value does not stay on the reset frame");
+            match h.get() {
+                HostValue::ProcessResult(r) => assert!(r.success == ok && r.exit_code == Some(code), "fields-preserved: the returned host value keeps its contents"),
+                _ => assert!(false, "kind: a process result stays a process result"),
+            }
+        }
+        _ => assert!(false, "kind: a host value stays a host value"),
+    }
+    kani::cover!(true, "host relocate reached");
+    std::mem::forget(out);
+    std::mem::forget(junk);
+    std::mem::forget(rt);
+}
+fn rt_reserve_host(_size: usize) -> Result<std::ptr::NonNull<u8>, u32> {
+    // a HostValue is ~200 bytes: 512-byte models for this instance
+    let layout = std::alloc::Layout::from_size_align(512, 4096).unwrap();
+    let p = unsafe { std::alloc::alloc(layout) };
+    std::ptr::NonNull::new(p).ok_or(12)
+}
+#[kani::proof]
+#[kani::stub(crate::sys::unix::UnixVirtualMemory::reserve, rt_reserve_host)]
+#[kani::stub(crate::sys::unix::UnixVirtualMemory::commit, crate::verif_common::commit_ok)]
+#[kani::stub(crate::sys::unix::UnixVirtualMemory::decommit, crate::verif_common::vm_nop)]
+#[kani::stub(crate::sys::unix::UnixVirtualMemory::release, crate::verif_common::vm_nop)]
+#[kani::stub(crate::arena::pool::PoolSet::new, crate::arena::pool::PoolSet::verif_static)]
+#[kani::stub(crate::arena::pool::PoolSet::contains, crate::arena::pool::PoolSet::verif_contains2)]
+#[kani::stub(core::fmt::write, crate::verif_common::fmt_write)]
+#[kani::unwind(4)]
+fn relocate_host_result() { relocate_host() }
+
+macro_rules! relocate_class {
+    ($name:ident, $class:literal) => {
+        rt_proof_runtime! { #[kani::unwind(4)] fn $name() { relocate_class($class) } }
+    };
+}
+
+// ---- 2.b' detach_return_value: what leaves a function does not alias storage that dies with it ------
+/// class: 0 borrowed view of a LIVE pool slot (a local, before its scope is popped); 1 borrowed view
+/// of a frame temporary; 2 borrowed source text; 3 owned pool string
+fn detach_class(class: u8) {
+    let arena_store = Arena::new(100_000).unwrap();
+    let arena: &'static Arena = unsafe { &*(&arena_store as *const Arena) };
+    let frame_store = Arena::new(1).unwrap();
+    let frame: &'static Arena = unsafe { &*(&frame_store as *const Arena) };
+    let rt = Runtime::new(arena, Some(frame));
+    let s = two_bytes();
+    let text = as_text(&s);
+    let fbase = frame_base(frame);
+    let slot0 = PoolSet::verif_slot0_base();
+    let alias = |x: &ArenaString<'static>| unsafe { std::mem::transmute::<&str, &'static str>(x.as_str()) };
+    let mut keep: Option<ArenaString<'static>> = None;
+    let (val, in_ptr): (Value<'static>, *const u8) = match class {
+        0 => {
+            let st = rt.pool.alloc_str(text);
+            let r = (Value::Str(ArenaCow::Borrowed(alias(&st))), st.as_ptr());
+            keep = Some(st);
+            r
+        }
+        1 => {
+            let st = ArenaString::from_str(frame, text);
+            let r = (Value::Str(ArenaCow::Borrowed(alias(&st))), st.as_ptr());
+            keep = Some(st);
+            r
+        }
+        2 => (Value::Str(ArenaCow::Borrowed(text)), text.as_ptr()),
+        _ => {
+            let st = rt.pool.alloc_str(text);
+            let p = st.as_ptr();
+            (Value::Str(ArenaCow::Owned(st)), p)
+        }
+    };
+    let off = frame.offset();
+    let out = rt.detach_return_value(val);
+    let known = [unsafe { fbase.add(off) }, in_ptr];
+    match &out {
+        Value::Str(c) => {
+            assert!(bytes_at(c, &s, &known), "bytes-preserved: detaching keeps the string's bytes");
+            let p = c.as_bytes().as_ptr();
+            if class < 2 {
+                assert!(c.is_owned() && p != in_ptr, "detached: a view of a pool slot or of the frame becomes a copy of its own");
+                assert!(frame.contains_ptr(p), "detached: the copy lives on the frame (relocate_return_value carries it over the reset)");
+            } else {
+                assert!(p == in_ptr, "pass-through: source text and owned strings are returned as they are");
+            }
+        }
+        _ => assert!(false, "kind: a string stays a string"),
+    }
+    kani::cover!(true, "detach reached");
+    std::mem::forget(out);
+    std::mem::forget(keep);
+    std::mem::forget(rt);
+}
+macro_rules! detach_class {
+    ($name:ident, $class:literal) => {
+        rt_proof_runtime! { #[kani::unwind(4)] fn $name() { detach_class($class) } }
     };
 }
